@@ -5,6 +5,7 @@ import (
 	"bytes"
 	"fmt"
 	"io"
+	"os"
 	"reflect"
 	"unsafe"
 
@@ -20,6 +21,9 @@ import (
 )
 
 func init() {
+	if os.Getenv("VERIF_FRESH_REG") == "1" {
+		return // TestC12FreshWorker makes the first registration calls itself, concurrently
+	}
 	avrotime.RegisterCodecs()
 	avronull.RegisterCodecs()
 }
